@@ -445,6 +445,7 @@ func init() {
 		c.runImageCoordMerge(r, "image.coordmerge", "hlsl/internal/codegen")
 		c.runErrNilOnly(r, "errflow.nilonly", inPkgs("wgsl"), nil)
 		c.runSizeSignCheck(r, "size.signcheck", inPkgs("wgsl", "ir"))
+		c.runSampleOffsetKept(r, "sample.offsetkept", "wgsl/internal/lower")
 		cnt := map[string]int{}
 		for _, o := range r.Obs {
 			if o.Verdict == "ok" || o.Verdict == "trivial" {
@@ -951,4 +952,61 @@ func (c *Ctx) runSizeSignCheck(r *Report, rule string, pkgs func(string) bool) {
 		}
 	}
 	r.inst("size.signcheck", n)
+}
+
+// sample.offsetkept (C01, C09): every WGSL texture sampling builtin except
+// textureSampleBaseClampToEdge takes an optional trailing `offset`. A lowering
+// function that builds ir.ExprImageSample from the call's argument list sets
+// the Offset field (from an argument) - a literal without the Offset key accepts
+// the argument and drops it - unless it sets ClampToEdge (the builtin without an
+// offset parameter).
+func (c *Ctx) runSampleOffsetKept(r *Report, rule string, pkg string) {
+	n := 0
+	for _, fn := range c.allFuncs() {
+		if fn.Pkg.Rel != pkg {
+			continue
+		}
+		info := fn.Pkg.Info
+		takesArgs := false
+		if fn.Decl.Type.Params != nil {
+			for _, f := range fn.Decl.Type.Params.List {
+				if sl, ok := info.TypeOf(f.Type).(*types.Slice); ok {
+					if nt := namedOf(sl.Elem()); nt != nil && nt.Obj().Name() == "Expr" {
+						takesArgs = true
+					}
+				}
+			}
+		}
+		if !takesArgs {
+			continue
+		}
+		ord := 0
+		ast.Inspect(fn.Decl.Body, func(m ast.Node) bool {
+			cl, ok := m.(*ast.CompositeLit)
+			if !ok || irTypeName(info.TypeOf(cl)) != "ExprImageSample" {
+				return true
+			}
+			keys := map[string]bool{}
+			for _, el := range cl.Elts {
+				if kv, ok := el.(*ast.KeyValueExpr); ok {
+					if id, ok := kv.Key.(*ast.Ident); ok {
+						keys[id.Name] = true
+					}
+				}
+			}
+			n++
+			ord++
+			cons := fn.id() + ":ExprImageSample#" + itoa(ord)
+			switch {
+			case keys["Offset"]:
+				r.ok(rule, cons, c.pos(cl.Pos()), "")
+			case keys["ClampToEdge"]:
+				r.triv(rule, cons, c.pos(cl.Pos()), "textureSampleBaseClampToEdge has no offset parameter")
+			default:
+				r.viol(rule, cons, c.pos(cl.Pos()), fn.id()+" builds ExprImageSample from the argument list without an Offset: the builtin's optional trailing offset is accepted and dropped")
+			}
+			return true
+		})
+	}
+	r.inst("sample.offsetkept", n)
 }
